@@ -7,10 +7,11 @@ import Mathlib.Tactic.Positivity
 
 /-! # C11 — path finding returns valid chains; flipping a plaquette path changes exactly its two ends; metrics
 
-The backward pass is proved correct for every parent table that satisfies the forward pass's invariant (`ParentOK`:
-parents are adjacent through the recorded edge and strictly decrease a rank — the cost, which strictly decreases
-towards the start because distances are positive).  The executable model of the whole search is run against koala
-with IEEE doubles and must return the same path. -/
+The backward pass is proved correct for every parent table that satisfies `ParentOK` (parents are adjacent through
+the recorded edge and strictly decrease a rank), and the forward pass is proved to establish `ParentOK` whenever it
+returns (`forward_done`; loop invariant `FInv`, rank = number of recorded costs below the node's own), for every
+cost type obeying `CostLaws` — so `path_valid` is unconditional.  The executable model of the whole search is run
+against koala with IEEE doubles and must return the same path. -/
 
 namespace C11
 open Path
@@ -238,6 +239,449 @@ theorem euclid2_metric (a b : Int × Int) : euclid2 a b = euclid2 b a ∧ 0 ≤ 
     exact Prod.ext (by omega) (by omega)
   · intro h; rw [h]; ring
 
+/-! ### the forward pass maintains the parent invariant -/
+
+section Assoc
+variable {α : Type}
+
+theorem lookup_set_self (k : Nat) (v : α) (l : List (Nat × α)) : lookup k (Path.set k v l) = some v := by
+  induction l with
+  | nil => simp [Path.set, lookup]
+  | cons a t ih =>
+    obtain ⟨k', v'⟩ := a
+    by_cases h : k' = k
+    · simp [Path.set, lookup, h]
+    · simp [Path.set, lookup, h, ih]
+
+theorem lookup_set_ne (k k' : Nat) (v : α) (l : List (Nat × α)) (hne : k' ≠ k) : lookup k' (Path.set k v l) = lookup k' l := by
+  induction l with
+  | nil => simp [Path.set, lookup, Ne.symm hne]
+  | cons a t ih =>
+    obtain ⟨k'', v''⟩ := a
+    by_cases h : k'' = k
+    · subst h; simp [Path.set, lookup, Ne.symm hne]
+    · by_cases h2 : k'' = k'
+      · subst h2; simp [Path.set, lookup, h]
+      · simp [Path.set, lookup, h, h2, ih]
+
+theorem lookup_set_some (k k' : Nat) (v : α) (l : List (Nat × α)) (h : ∃ c, lookup k' l = some c) :
+    ∃ c, lookup k' (Path.set k v l) = some c := by
+  by_cases hk : k' = k
+  · subst hk; exact ⟨v, lookup_set_self _ _ _⟩
+  · rw [lookup_set_ne k k' v l hk]; exact h
+
+theorem length_set_some (k : Nat) (v w : α) (l : List (Nat × α)) (h : lookup k l = some w) : (Path.set k v l).length = l.length := by
+  induction l with
+  | nil => simp [lookup] at h
+  | cons a t ih =>
+    obtain ⟨k', v'⟩ := a
+    by_cases hk : k' = k
+    · simp [Path.set, hk]
+    · simp only [lookup, hk, if_false] at h
+      simp [Path.set, hk, ih h]
+
+theorem length_set_none (k : Nat) (v : α) (l : List (Nat × α)) (h : lookup k l = none) : (Path.set k v l).length = l.length + 1 := by
+  induction l with
+  | nil => simp [Path.set]
+  | cons a t ih =>
+    obtain ⟨k', v'⟩ := a
+    by_cases hk : k' = k
+    · simp [lookup, hk] at h
+    · simp only [lookup, hk, if_false] at h
+      simp [Path.set, hk, ih h]
+
+theorem length_set_ge (k : Nat) (v : α) (l : List (Nat × α)) : l.length ≤ (Path.set k v l).length := by
+  cases h : lookup k l with
+  | none => rw [length_set_none k v l h]; omega
+  | some w => rw [length_set_some k v w l h]
+
+theorem lookup_mem (k : Nat) (v : α) (l : List (Nat × α)) (h : lookup k l = some v) : (k, v) ∈ l := by
+  induction l with
+  | nil => simp [lookup] at h
+  | cons a t ih =>
+    obtain ⟨k', v'⟩ := a
+    by_cases hk : k' = k
+    · simp only [lookup, hk, if_true, Option.some.injEq] at h
+      simp [hk, h]
+    · simp only [lookup, hk, if_false] at h
+      exact List.mem_cons_of_mem _ (ih h)
+
+theorem countP_lt {β : Type} (l : List β) (P Q : β → Bool) (hPQ : ∀ x ∈ l, P x = true → Q x = true)
+    (x : β) (hx : x ∈ l) (hQ : Q x = true) (hP : P x = false) : l.countP P < l.countP Q := by
+  induction l with
+  | nil => simp at hx
+  | cons a t ih =>
+    simp only [List.countP_cons]
+    have hmono : t.countP P ≤ t.countP Q := List.countP_mono_left (fun y hy h => hPQ y (List.mem_cons_of_mem _ hy) h)
+    rcases List.mem_cons.mp hx with h | h
+    · subst h; simp [hQ, hP]; omega
+    · have := ih (fun y hy => hPQ y (List.mem_cons_of_mem _ hy)) h
+      have ha := hPQ a (by simp)
+      by_cases hpa : P a = true
+      · simp [hpa, ha hpa]; omega
+      · simp [hpa]; omega
+
+end Assoc
+
+set_option linter.unusedSectionVars false
+variable {C : Type} [Add C] [LT C] [DecidableRel (fun a b : C => a < b)]
+
+/-- what the proof needs of the cost arithmetic (for IEEE doubles: `<` is a strict order away from NaN, and adding a
+    positive distance that is not absorbed by rounding increases a cost) -/
+structure CostLaws (h : Nat → Nat → C) : Prop where
+  asymm : ∀ a b : C, a < b → ¬ b < a
+  trans : ∀ a b c : C, a < b → b < c → a < c
+  pos : ∀ (c : C) (a b : Nat), c < c + h a b
+
+/-- the rank that decreases along parents: the number of recorded costs below the node's own (nodes without a cost —
+    only the goal reached by early stopping — rank above everything) -/
+def rankOf (cost : List (Nat × C)) (n : Nat) : Nat :=
+  match lookup n cost with
+  | none => cost.length
+  | some c => cost.countP fun kv => decide (kv.2 < c)
+
+theorem rankOf_lt_of_lt (hl : ∀ a b c : C, a < b → b < c → a < c) (hasym : ∀ a b : C, a < b → ¬ b < a)
+    (cost : List (Nat × C)) (p n : Nat) (cp cn : C)
+    (hp : lookup p cost = some cp) (hn : lookup n cost = some cn) (hlt : cp < cn) : rankOf cost p < rankOf cost n := by
+  unfold rankOf
+  rw [hp, hn]
+  apply countP_lt _ _ _ _ (p, cp) (lookup_mem p cp cost hp)
+  · simpa using hlt
+  · simp only [decide_eq_false_iff_not]; intro h; exact hasym _ _ h h
+  · intro x _ hx
+    simp only [decide_eq_true_eq] at hx ⊢
+    exact hl _ _ _ hx hlt
+
+theorem rankOf_lt_length (hasym : ∀ a b : C, a < b → ¬ b < a) (cost : List (Nat × C)) (p : Nat) (cp : C)
+    (hp : lookup p cost = some cp) : rankOf cost p < cost.length := by
+  unfold rankOf
+  rw [hp]
+  have := countP_lt cost (fun kv => decide (kv.2 < cp)) (fun _ => true) (fun _ _ _ => rfl) (p, cp) (lookup_mem p cp cost hp) rfl
+    (by simp only [decide_eq_false_iff_not]; intro h; exact hasym _ _ h h)
+  simpa using this
+
+theorem rankOf_le_length (hasym : ∀ a b : C, a < b → ¬ b < a) (cost : List (Nat × C)) (n : Nat) : rankOf cost n ≤ cost.length := by
+  cases h : lookup n cost with
+  | none => unfold rankOf; rw [h]
+  | some c => exact Nat.le_of_lt (rankOf_lt_length hasym cost n c h)
+
+/-- the loop invariant of `a_star_search_forward_pass` -/
+structure FInv (adj : Nat → List (Nat × Nat)) (start goal : Nat) (early : Bool) (s : St C) : Prop where
+  adjacent : ∀ n p e, lookup n s.came = some (p, e) → (n, e) ∈ adj p
+  ordered : ∀ n p e, lookup n s.came = some (p, e) → ∃ cp cn, lookup p s.cost = some cp ∧ lookup n s.cost = some cn ∧ cp < cn
+  frontier_ok : ∀ x ∈ s.frontier, (∃ c, lookup x.2 s.cost = some c) ∧ (x.2 = start ∨ ∃ q, lookup x.2 s.came = some q)
+  parent_known : ∀ n p e, lookup n s.came = some (p, e) → p = start ∨ ∃ q, lookup p s.came = some q
+  goal_fresh : early = true → goal ≠ start → lookup goal s.cost = none
+  sizes : s.cost.length ≤ s.came.length + 1
+
+theorem finv_init (adj : Nat → List (Nat × Nat)) (start goal : Nat) (early : Bool) (zero : C) :
+    FInv adj start goal early (initSt zero start) where
+  adjacent := by intro n p e h; simp [initSt, lookup] at h
+  ordered := by intro n p e h; simp [initSt, lookup] at h
+  frontier_ok := by
+    intro x hx
+    simp only [initSt, List.mem_singleton] at hx
+    subst hx
+    exact ⟨⟨zero, by simp [initSt, lookup]⟩, Or.inl rfl⟩
+  parent_known := by intro n p e h; simp [initSt, lookup] at h
+  goal_fresh := by
+    intro _ hne
+    simp [initSt, lookup, Ne.symm hne]
+  sizes := by simp [initSt]
+
+/-- one successful relaxation keeps the invariant -/
+theorem finv_update (adj : Nat → List (Nat × Nat)) (h : Nat → Nat → C) (hL : CostLaws h) (start goal : Nat) (early : Bool)
+    (s : St C) (hI : FInv adj start goal early s) (current next e : Nat) (cc : C)
+    (hcc : lookup current s.cost = some cc) (hcur : current = start ∨ ∃ q, lookup current s.came = some q)
+    (hadj : (next, e) ∈ adj current) (hng : ¬ (early = true ∧ next = goal))
+    (hbetter : lookup next s.cost = none ∨ ∃ old, lookup next s.cost = some old ∧ cc + h current next < old) :
+    FInv adj start goal early
+      { came := Path.set next (current, e) s.came, cost := Path.set next (cc + h current next) s.cost,
+        frontier := (cc + h current next + h next goal, next) :: s.frontier } := by
+  have hne_cur : next ≠ current := by
+    rintro rfl
+    rcases hbetter with hb | ⟨old, hb, hlt⟩
+    · rw [hcc] at hb; cases hb
+    · rw [hcc] at hb; cases hb
+      exact hL.asymm _ _ (hL.pos cc next next) hlt
+  constructor
+  · intro n p e' hl
+    by_cases hn : n = next
+    · subst hn; rw [lookup_set_self] at hl; cases hl; exact hadj
+    · rw [lookup_set_ne _ _ _ _ hn] at hl; exact hI.adjacent n p e' hl
+  · intro n p e' hl
+    show ∃ cp cn, lookup p (Path.set next _ s.cost) = some cp ∧ lookup n (Path.set next _ s.cost) = some cn ∧ cp < cn
+    by_cases hn : n = next
+    · subst hn; rw [lookup_set_self] at hl; cases hl
+      refine ⟨cc, cc + h current n, ?_, lookup_set_self _ _ _, hL.pos _ _ _⟩
+      rw [lookup_set_ne _ _ _ _ (Ne.symm hne_cur)]; exact hcc
+    · rw [lookup_set_ne _ _ _ _ hn] at hl
+      obtain ⟨cp, cn, h1, h2, h3⟩ := hI.ordered n p e' hl
+      by_cases hp : p = next
+      · subst hp
+        refine ⟨cc + h current p, cn, lookup_set_self _ _ _, by rw [lookup_set_ne _ _ _ _ hn]; exact h2, ?_⟩
+        rcases hbetter with hb | ⟨old, hb, hlt⟩
+        · rw [h1] at hb; cases hb
+        · rw [h1] at hb; cases hb; exact hL.trans _ _ _ hlt h3
+      · exact ⟨cp, cn, by rw [lookup_set_ne _ _ _ _ hp]; exact h1, by rw [lookup_set_ne _ _ _ _ hn]; exact h2, h3⟩
+  · intro x hx
+    rcases List.mem_cons.mp hx with hx | hx
+    · subst hx
+      exact ⟨⟨_, lookup_set_self _ _ _⟩, Or.inr ⟨_, lookup_set_self _ _ _⟩⟩
+    · obtain ⟨h1, h2⟩ := hI.frontier_ok x hx
+      refine ⟨lookup_set_some _ _ _ _ h1, ?_⟩
+      rcases h2 with h2 | h2
+      · exact Or.inl h2
+      · exact Or.inr (lookup_set_some _ _ _ _ h2)
+  · intro n p e' hl
+    show p = start ∨ ∃ q, lookup p (Path.set next _ s.came) = some q
+    by_cases hn : n = next
+    · subst hn; rw [lookup_set_self] at hl; cases hl
+      rcases hcur with h1 | h1
+      · exact Or.inl h1
+      · exact Or.inr (lookup_set_some _ _ _ _ h1)
+    · rw [lookup_set_ne _ _ _ _ hn] at hl
+      rcases hI.parent_known n p e' hl with h1 | h1
+      · exact Or.inl h1
+      · exact Or.inr (lookup_set_some _ _ _ _ h1)
+  · intro he hgs
+    show lookup goal (Path.set next _ s.cost) = none
+    have : goal ≠ next := fun hh => hng ⟨he, hh.symm⟩
+    rw [lookup_set_ne _ _ _ _ this]; exact hI.goal_fresh he hgs
+  · show (Path.set next _ s.cost).length ≤ (Path.set next _ s.came).length + 1
+    cases hc : lookup next s.cost with
+    | some w =>
+      rw [length_set_some _ _ w _ hc]
+      have := length_set_ge next (current, e) s.came
+      have := hI.sizes
+      omega
+    | none =>
+      have hcame : lookup next s.came = none := by
+        cases hq : lookup next s.came with
+        | none => rfl
+        | some q =>
+          obtain ⟨p, e'⟩ := q
+          obtain ⟨_, cn, _, h2, _⟩ := hI.ordered next p e' hq
+          rw [hc] at h2; cases h2
+      rw [length_set_none _ _ _ hc, length_set_none _ _ _ hcame]
+      have := hI.sizes
+      omega
+
+
+/-- the state in which the early-stopping branch returns: the parent of the goal was written on top of a state
+    satisfying the invariant -/
+def Stopped (adj : Nat → List (Nat × Nat)) (start goal : Nat) (early : Bool) (s' : St C) : Prop :=
+  ∃ (s : St C) (cur e : Nat), FInv adj start goal early s ∧ (goal, e) ∈ adj cur ∧ (∃ cc, lookup cur s.cost = some cc) ∧
+    (cur = start ∨ ∃ q, lookup cur s.came = some q) ∧ early = true ∧ s'.came = Path.set goal (cur, e) s.came ∧ s'.cost = s.cost
+
+/-- the inner `for next, shared_edge in zip(*adjacency(current))` loop -/
+theorem relax_inv (adj : Nat → List (Nat × Nat)) (h : Nat → Nat → C) (hL : CostLaws h) (start goal : Nat) (early : Bool)
+    (current : Nat) :
+    ∀ (l : List (Nat × Nat)) (s : St C), (∀ x ∈ l, x ∈ adj current) → FInv adj start goal early s →
+      (∃ cc, lookup current s.cost = some cc) → (current = start ∨ ∃ q, lookup current s.came = some q) →
+      ((relax h goal early current l s).2 = false → FInv adj start goal early (relax h goal early current l s).1) ∧
+      ((relax h goal early current l s).2 = true → Stopped adj start goal early (relax h goal early current l s).1) := by
+  intro l
+  induction l with
+  | nil => intro s _ hI _ _; exact ⟨fun _ => hI, fun hh => by simp [relax] at hh⟩
+  | cons x rest ih =>
+    intro s hsub hI hcc hcur
+    obtain ⟨next, e⟩ := x
+    have hadj : (next, e) ∈ adj current := hsub _ (by simp)
+    have hsub' : ∀ x ∈ rest, x ∈ adj current := fun x hx => hsub x (List.mem_cons_of_mem _ hx)
+    by_cases hstop : (early && next == goal) = true
+    · -- early return
+      have hr : relax h goal early current ((next, e) :: rest) s = ({ s with came := Path.set next (current, e) s.came }, true) := by
+        simp only [relax, hstop, if_true]
+      rw [hr]
+      simp only [Bool.and_eq_true, beq_iff_eq] at hstop
+      obtain ⟨he, hng⟩ := hstop
+      subst hng
+      exact ⟨fun hh => absurd hh (by simp), fun _ => ⟨s, current, e, hI, hadj, hcc, hcur, he, rfl, rfl⟩⟩
+    · obtain ⟨cc, hcc'⟩ := hcc
+      have hng : ¬ (early = true ∧ next = goal) := by
+        intro hh; apply hstop; simp [hh.1, hh.2]
+      cases hn : lookup next s.cost with
+      | none =>
+        have hr : relax h goal early current ((next, e) :: rest) s = relax h goal early current rest
+            { came := Path.set next (current, e) s.came, cost := Path.set next (cc + h current next) s.cost,
+              frontier := (cc + h current next + h next goal, next) :: s.frontier } := by
+          simp only [relax, hstop, hcc', hn, Bool.false_eq_true, if_false, if_true]
+        rw [hr]
+        have hI' := finv_update adj h hL start goal early s hI current next e cc hcc' hcur hadj hng (Or.inl hn)
+        refine ih _ hsub' hI' (lookup_set_some _ _ _ _ ⟨cc, hcc'⟩) ?_
+        rcases hcur with h1 | h1
+        · exact Or.inl h1
+        · exact Or.inr (lookup_set_some _ _ _ _ h1)
+      | some old =>
+        by_cases hb : cc + h current next < old
+        · have hr : relax h goal early current ((next, e) :: rest) s = relax h goal early current rest
+              { came := Path.set next (current, e) s.came, cost := Path.set next (cc + h current next) s.cost,
+                frontier := (cc + h current next + h next goal, next) :: s.frontier } := by
+            simp only [relax, hstop, hcc', hn, hb, decide_true, Bool.false_eq_true, if_false, if_true]
+          rw [hr]
+          have hI' := finv_update adj h hL start goal early s hI current next e cc hcc' hcur hadj hng (Or.inr ⟨old, hn, hb⟩)
+          refine ih _ hsub' hI' (lookup_set_some _ _ _ _ ⟨cc, hcc'⟩) ?_
+          rcases hcur with h1 | h1
+          · exact Or.inl h1
+          · exact Or.inr (lookup_set_some _ _ _ _ h1)
+        · have hr : relax h goal early current ((next, e) :: rest) s = relax h goal early current rest s := by
+            simp only [relax, hstop, hcc', hn, hb, decide_false, Bool.false_eq_true, if_false]
+          rw [hr]
+          exact ih s hsub' hI ⟨cc, hcc'⟩ hcur
+
+theorem popMin_mem : ∀ (l : List (C × Nat)) (m : C × Nat) (rest : List (C × Nat)), popMin l = some (m, rest) →
+    m ∈ l ∧ ∀ x ∈ rest, x ∈ l := by
+  intro l
+  induction l with
+  | nil => intro m rest hh; simp [popMin] at hh
+  | cons x xs ih =>
+    intro m rest hh
+    simp only [popMin] at hh
+    cases hp : popMin xs with
+    | none =>
+      rw [hp] at hh
+      simp only [Option.some.injEq, Prod.mk.injEq] at hh
+      obtain ⟨rfl, rfl⟩ := hh
+      exact ⟨by simp, by simp⟩
+    | some mr =>
+      obtain ⟨m', rest'⟩ := mr
+      rw [hp] at hh
+      obtain ⟨h1, h2⟩ := ih m' rest' hp
+      simp only at hh
+      split at hh
+      · simp only [Option.some.injEq, Prod.mk.injEq] at hh
+        obtain ⟨rfl, rfl⟩ := hh
+        refine ⟨List.mem_cons_of_mem _ h1, ?_⟩
+        intro y hy
+        rcases List.mem_cons.mp hy with hy | hy
+        · subst hy; simp
+        · exact List.mem_cons_of_mem _ (h2 y hy)
+      · simp only [Option.some.injEq, Prod.mk.injEq] at hh
+        obtain ⟨rfl, rfl⟩ := hh
+        exact ⟨by simp, fun y hy => List.mem_cons_of_mem _ hy⟩
+
+/-- what the backward pass needs of the parent table the forward pass returns -/
+def Done (adj : Nat → List (Nat × Nat)) (start goal : Nat) (s : St C) : Prop :=
+  ∃ rank : Nat → Nat, ParentOK adj s.came start rank ∧ (goal = start ∨ ∃ q, lookup goal s.came = some q) ∧
+    rank goal < s.came.length + 2
+
+theorem finv_done (adj : Nat → List (Nat × Nat)) (h : Nat → Nat → C) (hL : CostLaws h) (start goal : Nat) (early : Bool) (s : St C)
+    (hI : FInv adj start goal early s) (hg : goal = start ∨ ∃ q, lookup goal s.came = some q)
+    (rest : List (C × Nat)) : Done adj start goal { s with frontier := rest } := by
+  refine ⟨rankOf s.cost, ⟨hI.adjacent, ?_, hI.parent_known⟩, hg, ?_⟩
+  · intro n p e hl _
+    obtain ⟨cp, cn, h1, h2, h3⟩ := hI.ordered n p e hl
+    exact rankOf_lt_of_lt hL.trans hL.asymm s.cost p n cp cn h1 h2 h3
+  · have := rankOf_le_length hL.asymm s.cost goal
+    have := hI.sizes
+    show rankOf s.cost goal < s.came.length + 2
+    omega
+
+theorem stopped_done (adj : Nat → List (Nat × Nat)) (h : Nat → Nat → C) (hL : CostLaws h) (start goal : Nat) (early : Bool) (s' : St C)
+    (hS : Stopped adj start goal early s') (hgs : goal ≠ start) : Done adj start goal s' := by
+  obtain ⟨s, cur, e, hI, hadj, ⟨cc, hcc⟩, hcur, he, hcame, hcost⟩ := hS
+  have hgc : lookup goal s.cost = none := hI.goal_fresh he hgs
+  refine ⟨rankOf s.cost, ⟨?_, ?_, ?_⟩, ?_, ?_⟩
+  · intro n p e' hl
+    rw [hcame] at hl
+    by_cases hn : n = goal
+    · subst hn; rw [lookup_set_self] at hl; cases hl; exact hadj
+    · rw [lookup_set_ne _ _ _ _ hn] at hl; exact hI.adjacent n p e' hl
+  · intro n p e' hl _
+    rw [hcame] at hl
+    by_cases hn : n = goal
+    · subst hn; rw [lookup_set_self] at hl; cases hl
+      have h1 := rankOf_lt_length hL.asymm s.cost cur cc hcc
+      have h2 : rankOf s.cost n = s.cost.length := by unfold rankOf; rw [hgc]
+      omega
+    · rw [lookup_set_ne _ _ _ _ hn] at hl
+      obtain ⟨cp, cn, h1, h2, h3⟩ := hI.ordered n p e' hl
+      exact rankOf_lt_of_lt hL.trans hL.asymm s.cost p n cp cn h1 h2 h3
+  · intro n p e' hl
+    rw [hcame] at hl ⊢
+    by_cases hn : n = goal
+    · subst hn; rw [lookup_set_self] at hl; cases hl
+      rcases hcur with h1 | h1
+      · exact Or.inl h1
+      · exact Or.inr (lookup_set_some _ _ _ _ h1)
+    · rw [lookup_set_ne _ _ _ _ hn] at hl
+      rcases hI.parent_known n p e' hl with h1 | h1
+      · exact Or.inl h1
+      · exact Or.inr (lookup_set_some _ _ _ _ h1)
+  · right; rw [hcame]; exact ⟨_, lookup_set_self _ _ _⟩
+  · have h1 := rankOf_le_length hL.asymm s.cost goal
+    have h2 := hI.sizes
+    have h3 := length_set_ge goal (cur, e) s.came
+    rw [hcame]; omega
+
+/-- **C11 forward pass**: whenever the loop returns (either way), the parent table it returns satisfies what the
+    backward pass needs — for every graph, every heuristic obeying `CostLaws`, every budget -/
+theorem forward_done (adj : Nat → List (Nat × Nat)) (h : Nat → Nat → C) (hL : CostLaws h) (start goal : Nat) (early : Bool)
+    (hgs : goal ≠ start) :
+    ∀ (fuel : Nat) (s s' : St C), FInv adj start goal early s → forward adj h goal early fuel s = .found s' →
+      Done adj start goal s' := by
+  intro fuel
+  induction fuel with
+  | zero => intro s s' _ hf; simp [forward] at hf
+  | succ fuel ih =>
+    intro s s' hI hf
+    simp only [forward] at hf
+    cases hp : popMin s.frontier with
+    | none => rw [hp] at hf; cases hf
+    | some mr =>
+      obtain ⟨⟨pr, current⟩, rest⟩ := mr
+      rw [hp] at hf
+      obtain ⟨hm, hrest⟩ := popMin_mem _ _ _ hp
+      obtain ⟨hcc, hcur⟩ := hI.frontier_ok _ hm
+      simp only at hf hcc hcur
+      by_cases hcg : (current == goal) = true
+      · simp only [hcg, if_true, Outcome.found.injEq] at hf
+        subst hf
+        have : current = goal := by simpa using hcg
+        subst this
+        exact finv_done adj h hL start current early s hI hcur rest
+      · simp only [hcg, Bool.false_eq_true, if_false] at hf
+        have hI' : FInv adj start goal early { s with frontier := rest } :=
+          ⟨hI.adjacent, hI.ordered, fun x hx => hI.frontier_ok x (hrest x hx), hI.parent_known, hI.goal_fresh, hI.sizes⟩
+        obtain ⟨r1, r2⟩ := relax_inv adj h hL start goal early current (adj current) _ (fun x hx => hx) hI' hcc hcur
+        by_cases hr : (relax h goal early current (adj current) { s with frontier := rest }).2 = true
+        · simp only [hr, if_true, Outcome.found.injEq] at hf
+          subst hf
+          exact stopped_done adj h hL start goal early _ (r2 hr) hgs
+        · have hr' : (relax h goal early current (adj current) { s with frontier := rest }).2 = false := by simpa using hr
+          simp only [hr', Bool.false_eq_true, if_false] at hf
+          exact ih _ s' (r1 hr') hf
+
+/-- **C11 (path finding returns a valid chain, unconditionally)**: whatever the graph, the heuristic (obeying
+    `CostLaws`), the budget and the early-stopping flag — if the forward pass does not exhaust its budget, the
+    search returns a chain from the goal back to the start: `nodes[0] = goal`, `nodes[-1] = start`, one edge per
+    step, consecutive nodes joined by the listed edge (in particular the backward pass never hits a missing key
+    and terminates); if it does exhaust it, the result is `none` (`PathFindingError`). -/
+theorem path_valid (adj : Nat → List (Nat × Nat)) (h : Nat → Nat → C) (hL : CostLaws h) (zero : C) (start goal : Nat)
+    (early : Bool) (maxits : Nat) :
+    (forward adj h goal early maxits (initSt zero start) = .exhausted ∧ path adj h zero start goal early maxits = none) ∨
+    ∃ ns es, path adj h zero start goal early maxits = some (ns, es) ∧ ns.head? = some goal ∧ ns.getLast? = some start ∧
+      es.length + 1 = ns.length ∧ ValidChain adj ns es := by
+  cases hf : forward adj h goal early maxits (initSt zero start) with
+  | exhausted => left; exact ⟨rfl, by simp [path, hf]⟩
+  | found s =>
+    right
+    have hdone : Done adj start goal s := by
+      by_cases hgs : goal = start
+      · subst hgs
+        cases maxits with
+        | zero => simp [forward] at hf
+        | succ m =>
+          have : s.came = [] := by
+            simp only [forward, initSt, popMin, beq_self_eq_true, if_true, Outcome.found.injEq] at hf
+            rw [← hf]
+          refine ⟨fun _ => 0, ⟨?_, ?_, ?_⟩, Or.inl rfl, by show 0 < _; omega⟩ <;> (intro n p e hl; rw [this] at hl; simp [lookup] at hl)
+      · exact forward_done adj h hL start goal early hgs maxits _ s (finv_init adj start goal early zero) hf
+    obtain ⟨rank, hok, hk, hr⟩ := hdone
+    obtain ⟨ns, es, h1, h2, h3, h4, h5⟩ := backward_valid adj s.came start goal rank hok (s.came.length + 2) hr hk
+    exact ⟨ns, es, by simp [path, hf, h1], h2, h3, h4, h5⟩
+
 /-! ### non-vacuity: a path on a 3-cycle with unit costs -/
 
 def exAdj : Nat → List (Nat × Nat) := fun p => [[(1, 0), (2, 2)], [(0, 0), (2, 1)], [(1, 1), (0, 2)]].getD p []
@@ -245,6 +689,8 @@ def exAdj : Nat → List (Nat × Nat) := fun p => [[(1, 0), (2, 2)], [(0, 0), (2
 example : path exAdj (fun _ _ => (1 : Nat)) 0 0 2 false 10 = some ([2, 0], [2]) := by decide
 example : path exAdj (fun _ _ => (1 : Nat)) 0 1 1 true 10 = some ([1], []) := by decide
 example : validChainB exAdj [2, 0] [2] = true := by decide
+/-- the cost laws are satisfiable: unit costs in `Nat` -/
+example : CostLaws (fun _ _ => (1 : Nat)) := ⟨fun _ _ h => Nat.lt_asymm h, fun _ _ _ => Nat.lt_trans, fun c _ _ => Nat.lt_succ_self c⟩
 example : wrap1 10 1 9 = 2 ∧ periodic2 10 (1, 1) (9, 2) = 5 := by decide
 
 end C11
